@@ -27,7 +27,7 @@ FW_OPS = {"create1": "create1", "create1json": "create1", "reuse1": "create1", "
           "create3": "create3", "create3perm": "create3perm"}
 CWD_OPS = {"create3rel"}
 EXT_OPS = ("extractA", "extractB", "signrecA", "signrecB", "bootB", "bootcfg", "updateB", "signB", "parseyamlA", "parseyamlB", "convertA",
-           "convertB", "mpimerge", "cachemerge", "geninfo")
+           "convertB", "mpimerge", "cachemerge", "geninfo", "objskip", "objsign", "objsignB")
 
 
 def prepare(ctx, d: Path):
@@ -128,6 +128,9 @@ def prepare(ctx, d: Path):
                                    'SB_CONFIG_SUIT_MPI_RAD_LOCAL_1_VENDOR_NAME="nordicsemi.com"\n'
                                    'SB_CONFIG_SUIT_MPI_RAD_LOCAL_1_CLASS_NAME="nRF54H20_sample_app"\n')
     (d / "empty.bin").write_bytes(b"")
+    # an already signed envelope (input of `objskip`)
+    if signrun.sign_single(d / "env.suit", d / "env_signed.suit", keys, "ked", 0x55, "eddsa", "error") is not None:
+        raise core.MachineryError("could not prepare the signed input of objskip")
     from . import sigverify as sv
     (d / "keyA.pem").write_bytes(sv.pem(sv.gen_private("p256")))
     (d / "keyB.pem").write_bytes(sv.pem(sv.gen_private("ed25519")))
@@ -197,7 +200,7 @@ def run(ctx: core.Check):
              ["cachenv", "create1", "cachenv2", "cachenv"], ["parse", "cachenv2", "chdir", "cachenv"], ["create3", "touch_fw", "create3", "create3perm"],
              ["create3perm", "create3", "touch_fw", "create3perm"], ["create3rel", "chdir", "create3rel", "create3"],
              ["create3", "create3rel", "chdir", "create3rel"], ["parsehA", "parsehB", "parsehA", "parse"],
-             ["parsehB", "parsehA", "parsehB", "parsehB"], ["bootcfg", "bootB", "boot", "bootcfg"], ["boot", "bootcfg", "boot", "bootB"]]
+             ["parsehB", "parsehA", "parsehB", "parsehB"], ["objskip", "objsign", "objsignB", "objskip"], ["objsign", "objskip", "objsignB", "objsign"], ["bootcfg", "bootB", "boot", "bootcfg"], ["boot", "bootcfg", "boot", "bootB"]]
     per_seed = 40 if ctx.quick else 700
     d = ctx.tmp("c18")
     keys = prepare(ctx, d)
